@@ -80,6 +80,13 @@ def _apply(data: bytes, ops) -> bytes:
 SENSITIVE = ["gen/deep.html", "gen/deep.rtf", "gen/deep.json", "gen/hebrew.html", "gen/arabic.html", "gen/server.log", "gen/settings.ini"]  # outcome depends on interpreter-global settings (recursion limit)
 
 
+def classify_harness(rec, payload):
+    """a run that had to be killed (wall cap) says nothing about this property: termination is C01's"""
+    if rec.get("_harness") == "timeout" or (rec.get("_harness") == "crash" and rec.get("signal") in (9, 24)):
+        return {"ignore": True, "reason": "killed_by_budget_termination_is_C01"}
+    return None
+
+
 def gen_case(rng: random.Random, tier: str) -> dict:
     mode = rng.choices(["config", "observe", "interleave"], [1, 3, 0.6])[0]
     if mode == "interleave":
@@ -140,10 +147,17 @@ def _spawn(cfg, docs, pos_seed, want_tree=()):
     env = dict(os.environ)
     env["PYTHONHASHSEED"] = str(cfg["hashseed"])
     env["PYTHONPATH"] = K.REPO + os.pathsep + K.VERIF
-    p = subprocess.run([sys.executable, WORKER], input=json.dumps(spec), capture_output=True, text=True, env=env, cwd="/", timeout=240)
+    try:
+        p = subprocess.run([sys.executable, WORKER], input=json.dumps(spec), capture_output=True, text=True, env=env, cwd="/", timeout=400)
+    except subprocess.TimeoutExpired:
+        raise _BatchSkipped("a configuration process exceeded its wall budget (a runaway document: termination is C01's property)")
     if p.returncode != 0:
         raise RuntimeError("detworker failed: " + p.stderr[-1500:])
     return json.loads(p.stdout)
+
+
+class _BatchSkipped(Exception):
+    pass
 
 
 def _run_config(case):
@@ -151,7 +165,12 @@ def _run_config(case):
     log.ev("case", K.h64(K.jdump(case)))
     viol, probes, nontriv = [], {}, set()
     docs, cfgs = case["docs"], case["configs"]
-    outs = [_spawn(c, docs, case["pos_seed"]) for c in cfgs]
+    try:
+        outs = [_spawn(c, docs, case["pos_seed"]) for c in cfgs]
+    except _BatchSkipped as e:
+        log.ev("skipped", str(e)[:40])
+        return {"violations": [], "digest": log.digest(), "steps": log.n, "evals": 0, "faults": {}, "probes": {"batch_skipped_runaway_document": 1}, "nontrivial": [],
+                "states": ["skipped"], "summary": {"skipped": str(e)}}
     if len({c["hashseed"] for c in cfgs}) > 1:
         probes["hashseed_differs"] = 1
     if any(c["junk"] for c in cfgs):
@@ -179,6 +198,9 @@ def _run_config(case):
             viol.append({"class": "input_buffer_modified", "sig": f"{n.rsplit('.', 1)[-1]}", "detail": f"{n}: caller's BytesIO content changed",
                          "case": dict(case, docs=[d])})
         flat = [x for t in ds for x in t]
+        if any(x.startswith("SKIPPED") for x in flat):
+            probes["doc_skipped_cpu_budget"] = probes.get("doc_skipped_cpu_budget", 0) + 1
+            continue
         if len(set(flat)) > 1:
             # locate: which two executions differ, then diff the trees
             i_a, i_b = None, None
